@@ -608,6 +608,111 @@ pub fn run21(c: &Case21, supply: &SupplySpec, limit: u64) -> Result<response_tim
     }
 }
 
+/// exhaustive stage over tiny ROS 2 workloads
+fn exhaustive(tier: Tier, _seed: u64) -> ExtraResult {
+    let mut r = ExtraResult { exhaustive: true, replay_subcheck: "ecrts19", ..Default::default() };
+    let supplies = vec![
+        SupplySpec::Dedicated,
+        SupplySpec::Periodic { q: 1, p: 2 },
+        SupplySpec::Periodic { q: 2, p: 3 },
+        SupplySpec::Constrained { q: 1, d: 2, p: 3 },
+    ];
+    let ts_: Vec<u64> = tier.pick(vec![3, 5], vec![3, 4, 5, 7]);
+    let js: Vec<u64> = tier.pick(vec![0, 2, 6], vec![0, 1, 2, 4, 6, 9]);
+    let costs = vec![CostSpec::Scalar { c: 1 }, CostSpec::Scalar { c: 2 }, CostSpec::Multiframe { costs: vec![2, 1] }];
+    // (a) ECRTS'19
+    let mut owns = vec![];
+    for &t in &ts_ {
+        for &j in &js {
+            for c in &costs {
+                owns.push((ArrSpec::Sporadic { t, j }, c.clone()));
+            }
+        }
+    }
+    let others_opts: Vec<Vec<(ArrSpec, CostSpec)>> = vec![
+        vec![],
+        vec![(ArrSpec::Sporadic { t: 4, j: 0 }, CostSpec::Scalar { c: 1 })],
+        vec![(ArrSpec::Sporadic { t: 4, j: 5 }, CostSpec::Scalar { c: 2 })],
+        vec![(ArrSpec::Periodic { t: 6 }, CostSpec::Multiframe { costs: vec![3, 1] }), (ArrSpec::Periodic { t: 7 }, CostSpec::Scalar { c: 1 })],
+    ];
+    let calls = vec![
+        Call19::EventSource,
+        Call19::Timer { blocking: 0 },
+        Call19::Timer { blocking: 2 },
+        Call19::Pp,
+        Call19::Chain { prefix_cost: 0 },
+        Call19::Chain { prefix_cost: 1 },
+    ];
+    for own in &owns {
+        for others in &others_opts {
+            for supply in &supplies {
+                for call in &calls {
+                    for limit in [LimitSel::Huge, LimitSel::AtResult, LimitSel::BelowResult] {
+                        let c = Case19 { own: own.clone(), others: others.clone(), supply: supply.clone(), call: call.clone(), limit };
+                        r.evaluations += 1;
+                        match check19(&c) {
+                            Ok(o) => {
+                                if o.nontrivial {
+                                    r.nontrivial += 1;
+                                }
+                            }
+                            Err(msg) => {
+                                r.failure = Some((serde_json::to_value(&c).unwrap(), msg));
+                                return r;
+                            }
+                        }
+                    }
+                }
+            }
+        }
+    }
+    // (b) RTSS'21: every pair of callbacks from a small grid
+    let kinds = [Kind21::Timer, Kind21::EventSource, Kind21::Unknown, Kind21::Polled(0), Kind21::Polled(1)];
+    let mut cbs = vec![];
+    for &t in &ts_ {
+        for &j in &js {
+            for k in kinds {
+                for rr_ in [1u64, 4, 9] {
+                    cbs.push(Cb21 { arr: ArrSpec::Sporadic { t, j }, cost: CostSpec::Scalar { c: 1 + (t + j) % 2 }, kind: k, r: rr_ });
+                }
+            }
+        }
+    }
+    let stride = tier.pick(29usize, 3usize);
+    for (ia, a) in cbs.iter().enumerate() {
+        for (ib, b) in cbs.iter().enumerate() {
+            if (ia * 31 + ib) % stride != 0 {
+                continue;
+            }
+            for supply in &supplies {
+                for chain in [vec![0usize], vec![1], vec![0, 1]] {
+                    for use_bw in [false, true] {
+                        let c = Case21 { cbs: vec![a.clone(), b.clone()], supply: supply.clone(), chain: chain.clone(), use_bw, limit: LimitSel::Huge };
+                        r.evaluations += 1;
+                        match check21(&c) {
+                            Ok(o) => {
+                                if o.nontrivial {
+                                    r.nontrivial += 1;
+                                }
+                            }
+                            Err(msg) => {
+                                r.replay_subcheck = "rtss21";
+                                r.failure = Some((serde_json::to_value(&c).unwrap(), msg));
+                                return r;
+                            }
+                        }
+                    }
+                }
+            }
+        }
+    }
+    r.note = format!(
+        "ECRTS'19: every own callback Sporadic(T in {:?}, J in {:?}) x cost {{1, 2, multiframe [2,1]}} x 4 interferer sets x 4 supplies x 6 calls x limits huge / = result / result-1; RTSS'21: pairs of callbacks from the same grid x 5 kinds x assumed bounds {{1,4,9}} (every {}-th pair) x 4 supplies x 3 subchains x rr/bw",
+        ts_, js, stride
+    );
+    r
+}
+
 pub fn def() -> PropertyDef {
     PropertyDef {
         id: "C07",
@@ -621,6 +726,6 @@ pub fn def() -> PropertyDef {
             subcheck("ecrts19", (8000, 150_000), strategy19, check19).with_decoder(decode19, check19),
             subcheck("rtss21", (4000, 100_000), strategy21, check21).with_decoder(decode21, check21),
         ],
-        extra: None,
+        extra: Some(Box::new(exhaustive)),
     }
 }
